@@ -716,6 +716,10 @@ ASMJIT_FAVOR_SPEED Error Assembler::_emit(InstId inst_id, const Operand_& o0, co
       goto EmitX86R;
 
     case InstDB::kEncodingX86Op_xAddr:
+      // The address register is implicit - if it's not spelled the native address size is used.
+      if (isign3 == 0)
+        goto EmitX86Op;
+
       if (ASMJIT_UNLIKELY(!o0.is_reg()))
         goto InvalidInstruction;
 
